@@ -743,6 +743,95 @@ def c06_streams(ctx):
 
 
 # ------------------------------------------------------------------------------------------------
+# C07
+
+def german_methods(ctx):
+    return sorted(k[3:] for k in ctx.facts["algorithms"] if k.startswith("DE:"))
+
+
+def german_literals(ctx):
+    """Boundary accounts harvested from the integer / string literals of germany.py (+-1)."""
+    if "gl" in ctx.cache:
+        return ctx.cache["gl"]
+    repo = os.environ.get("VERIF_REPO", "/repo")
+    src = open(os.path.join(repo, "schwifty", "checksum", "germany.py"), encoding="utf-8").read()
+    vals = set()
+    for m in re.finditer(r"(?<![\w.])(\d[\d_]{2,})(?![\w.])", src):
+        v = int(m.group(1).replace("_", ""))
+        if v < 10 ** 10:
+            vals |= {v - 1, v, v + 1, v * 10, v * 10 - 1}
+    for m in re.finditer(r'"(\d{10})"', src):
+        v = int(m.group(1))
+        vals |= {v - 1, v, v + 1}
+    ctx.cache["gl"] = sorted(str(v).zfill(10) for v in vals if 0 <= v < 10 ** 10)
+    return ctx.cache["gl"]
+
+
+def german_accounts(ctx, n):
+    rng = ctx.rng
+    out = []
+    for _ in range(n):
+        kind = rng.random()
+        if kind < 0.55:
+            a = "".join(rng.choice(DIGITS) for _ in range(10))
+        elif kind < 0.8:                     # leading zeros (short account numbers)
+            k = rng.randrange(1, 9)
+            a = "0" * k + "".join(rng.choice(DIGITS) for _ in range(10 - k))
+        elif kind < 0.9:                     # trailing zeros / special digits at the positions the methods look at
+            a = "".join(rng.choice("0899") for _ in range(10))
+        else:
+            a = rng.choice(["0", "00", "9"]) + "".join(rng.choice(DIGITS) for _ in range(9))
+            a = a[:10].ljust(10, "0")
+        out.append(a)
+    return out
+
+
+def c07_method_cases(ctx, m, n):
+    key = enc("DE:" + m)
+    accs = german_accounts(ctx, n) + german_literals(ctx)
+    for a in accs:
+        yield Case("corr", "algo_validate", [key, enc(a), "-"], "DE:" + m, True)
+        yield Case("prop", "spec_german", [enc(m), enc(a)], "DE:" + m + "-spec", True)
+    for a in german_accounts(ctx, max(2, n // 10)):
+        for d in DIGITS:
+            for pos in (9, 7, 6):
+                b = a[:pos] + d + a[pos + 1:]
+                yield Case("corr", "algo_validate", [key, enc(b), "-"], "DE:" + m + "-digits", True)
+                yield Case("prop", "spec_german", [enc(m), enc(b)], "DE:" + m + "-spec-digits", True)
+        yield Case("corr", "algo_compute", [key, enc(a)], "DE:" + m + "-compute", True)
+    for bad in ("", "123", "12345678901", "12345A7890", "١٢٣٤٥٦٧٨٩٠", "          "):
+        yield Case("corr", "algo_validate", [key, enc(bad), "-"], "DE:" + m + "-malformed", True)
+        yield Case("corr", "algo_compute", [key, enc(bad)], "DE:" + m + "-malformed", True)
+
+
+def c07_streams(ctx):
+    rng = ctx.rng
+    n = 60 if ctx.quick else 3000
+    for m in german_methods(ctx):
+        yield from c07_method_cases(ctx, m, n)
+    # through the public API: every distinct checksum_algo of the registry (implemented or not), unlisted banks
+    banks = ctx.facts["banks"]
+    de = [(i, b) for i, b in enumerate(banks) if b[0] == "DE"]
+    algos = {}
+    import json as _json
+    tsv = os.path.join(os.path.dirname(HERE), "coq", "theories", "Gen", "banks.tsv")
+    for line in open(tsv):
+        f = line.rstrip("\n").split("\t")
+        if dec(f[1]) == "DE" and f[5] != "none":
+            algos.setdefault(dec(f[5]), []).append(dec(f[2]))
+    for algo, codes in sorted(algos.items()):
+        for code in rng.sample(codes, min(len(codes), 2 if ctx.quick else 12)):
+            for a in german_accounts(ctx, 3 if ctx.quick else 25):
+                b = code + a
+                iban = "DE" + iso_digits("DE", b) + b
+                yield Case("corr", "iban_new", [enc(iban), "0", "1"], "DE-api-" + ("impl" if "DE:" + algo in ctx.facts["algorithms"] else "unimpl"), True)
+    for _ in range(10 if ctx.quick else 200):
+        b = "".join(rng.choice(DIGITS) for _ in range(18))
+        iban = "DE" + iso_digits("DE", b) + b
+        yield Case("corr", "iban_new", [enc(iban), "0", "1"], "DE-api-random-bank", True)
+
+
+# ------------------------------------------------------------------------------------------------
 # known findings
 
 def match_known(v: dict, known: list):
@@ -769,10 +858,29 @@ def replay_known(k: dict, facts_path) -> bool:
     return got == ex["observed"]
 
 
-PREDICATES = {}
+def _pred_de76(v, k):
+    """method 76, account of an admissible Kontoart whose positions 2-7 give remainder 10 and whose check digit is 0,
+    accepted by the implementation and rejected by the spec"""
+    if v.get("call") != "spec_german" or v.get("observed_implementation") != "1":
+        return False
+    m, a = dec(v["args"][0]), dec(v["args"][1])
+    if m != "76" or len(a) != 10 or not a.isdigit() or a[0] not in "046789" or a[7] != "0":
+        return False
+    r = sum(int(d) * w for d, w in zip(a[1:7][::-1], [2, 3, 4, 5, 6, 7])) % 11
+    return r == 10
+
+
+PREDICATES = {"de76_remainder10": _pred_de76}
 
 
 REGISTRY = {
+    "C07": {
+        "streams": c07_streams,
+        "rule": "per implemented Bundesbank method: random ten-digit accounts (uniform, short with leading zeros, special "
+                "digit patterns), boundary accounts harvested from every literal of germany.py (+-1), all ten digits at the "
+                "check-digit positions, malformed accounts; through algorithms['DE:xx'].validate/compute vs the model; through "
+                "IBAN('DE..', validate_bban=True) for bank codes of every distinct checksum_algo of the registry and unlisted banks",
+    },
     "C06": {
         "streams": c06_streams,
         "rule": "per country with a national algorithm: random structure-conforming BBANs expanded over every value of the check "
